@@ -90,6 +90,22 @@ Proof.
         field. lra.
 Qed.
 
+(** Grid3Scales (the class production builds) duplicates the momentum formulas: they are
+    the same maps, so everything below holds for it as well *)
+Lemma grid3scales_maps_lem T r : -1 < r < 1 ->
+  g3_pz (mk_g3_env T) r = pz_of T r /\ g3_pp (mk_g3_env T) r = pp_of T r /\
+  g3_dpz (mk_g3_env T) r = dpz_of T r /\ g3_dpp (mk_g3_env T) r = dpp_of T r.
+Proof.
+  intros H.
+  unfold g3_pz, g3_pp, g3_dpz, g3_dpp, pz_of, pp_of, dpz_of, dpp_of, g_decompactify,
+    g_compactificationDerivatives.
+  cbn [fst snd g_momentumFalloffT g3_momentumFalloffT].
+  repeat split; try ring; field; nra.
+Qed.
+
+Lemma pz_of_explicit T r : pz_of T r = 2 * T * atanh_R r.
+Proof. unfold pz_of, g_decompactify. cbn [fst snd g_momentumFalloffT]. ring. Qed.
+
 (** the cached arrays belong to the CURRENT momentum scale *)
 Definition cache_current (s : gst) : Prop :=
   forall r, s_pzValues s r = pz_of (s_momentumFalloffT s) r /\
@@ -99,7 +115,7 @@ Definition cache_current (s : gst) : Prop :=
 
 Ltac cache_unfold :=
   unfold grid_init, changeMomentumFalloffScale, changePositionFalloffScale,
-    cacheCoordinates, pz_of, pp_of, dpz_of, dpp_of in *; cbn in *.
+    g3_changePositionFalloffScale, cacheCoordinates, pz_of, pp_of, dpz_of, dpp_of in *; cbn in *.
 Ltac cache_tac0 := intros r; cache_unfold; repeat split; reflexivity.
 Ltac cache_tac H :=
   intros r; destruct (H r) as (h1 & h2 & h3 & h4);
@@ -115,16 +131,23 @@ Proof. intros H. cache_tac H. Qed.
 Lemma position_rescale_current l s : cache_current s ->
   cache_current (changePositionFalloffScale l s).
 Proof. intros H. cache_tac H. Qed.
+Lemma g3_position_rescale_current s : cache_current s ->
+  cache_current (g3_changePositionFalloffScale s).
+Proof. intros H. cache_tac H. Qed.
 Lemma momentum_rescale_sets_scale t s :
   s_momentumFalloffT (changeMomentumFalloffScale t s) = t.
 Proof. reflexivity. Qed.
 
-Inductive gop := OpMomentum (t : R) | OpPosition (l : R) | OpRecache.
+(** OpPosition3 : Grid3Scales.changePositionFalloffScale (4 arguments; what production
+    calls).  The generator checked that Grid3Scales inherits _cacheCoordinates,
+    changeMomentumFalloffScale and the getters, and never writes the cached attributes. *)
+Inductive gop := OpMomentum (t : R) | OpPosition (l : R) | OpRecache | OpPosition3.
 Definition gstep (s : gst) (o : gop) : gst :=
   match o with
   | OpMomentum t => changeMomentumFalloffScale t s
   | OpPosition l => changePositionFalloffScale l s
   | OpRecache => cacheCoordinates s
+  | OpPosition3 => g3_changePositionFalloffScale s
   end.
 
 Lemma history_current ops : forall s, cache_current s -> cache_current (fold_left gstep ops s).
@@ -134,6 +157,7 @@ Proof.
   - apply momentum_rescale_current; exact H.
   - apply position_rescale_current; exact H.
   - apply recache_current.
+  - apply g3_position_rescale_current; exact H.
 Qed.
 
 (** the scale after a history is the last one set *)
@@ -198,6 +222,29 @@ Definition nodes_energy_positive (s : gst) (N : nat) (msq : R) : Prop :=
 
 Lemma positive_mass_suffices s N msq : 0 < msq -> nodes_energy_positive s N msq.
 Proof. intros H i j _ _. unfold Esq. nra. Qed.
+
+(** massless species (symmetric side of every wall): E > 0 at every node because N is odd,
+    so that no node has pz = 0 *)
+Lemma massless_nodes_lem s k msq : cache_current s -> s_momentumFalloffT s <> 0 ->
+  0 <= msq -> nodes_energy_positive s (2 * k + 1) msq.
+Proof.
+  intros Hc HT Hm i j Hi _.
+  unfold rz_lo, rz_hi in Hi.
+  destruct (Hc (rzNode (INR (2 * k + 1)) i)) as (Epz & _). rewrite Epz, pz_of_explicit.
+  assert (Hr : rzNode (INR (2 * k + 1)) i = - cos (INR i * PI / INR (2 * k + 1)))
+    by (unfold rzNode; f_equal).
+  rewrite Hr.
+  pose proof (lobatto_node_inside (2 * k + 1) i ltac:(lia)) as Hin.
+  pose proof (lobatto_node_nonzero k i ltac:(lia)) as Hnz.
+  set (x := - cos (INR i * PI / INR (2 * k + 1))) in *.
+  assert (Ha : atanh_R x <> 0) by (intro Z; apply Hnz, atanh_R_zero; assumption).
+  assert (Hp : 2 * s_momentumFalloffT s * atanh_R x <> 0).
+  { apply Rmult_integral_contrapositive_currified; [|exact Ha].
+    apply Rmult_integral_contrapositive_currified; [lra|exact HT]. }
+  unfold Esq.
+  assert (0 < (2 * s_momentumFalloffT s * atanh_R x) ^ 2) by (apply pow2_gt_0; exact Hp).
+  nra.
+Qed.
 
 Ltac moment_tac s N msq H :=
   unfold gd_sum; apply sumf_ext; intros i Hi; apply sumf_ext; intros j Hj;
@@ -277,9 +324,10 @@ Proof.
   apply Rgt_not_eq, sqrt_lt_R0; exact Hp.
 Qed.
 
-Lemma tmunu_lem s N msq dof v f : -1 < v < 1 -> nodes_energy_positive s N msq ->
+Lemma tmunu_lem s N msq msq' dof v f : -1 < v < 1 -> nodes_energy_positive s N msq ->
+  (* msq' : the mass deltaToTmunu evaluates at the CALLER's field point; it drops out *)
   let e := mk_t_env (gd_moment_Delta00 s N msq f) (gd_moment_Delta02 s N msq f)
-                    (gd_moment_Delta20 s N msq f) (gd_moment_Delta11 s N msq f) dof msq in
+                    (gd_moment_Delta20 s N msq f) (gd_moment_Delta11 s N msq f) dof msq' in
   let u0 := tm_u0 v in let u3 := tm_u3 v in
   (* wall-frame momentum of a particle with plasma-frame (E, pz) *)
   let p0 := fun E pz : R => u0 * E + u3 * pz in
@@ -300,8 +348,8 @@ Proof.
       (u3 * u0) * E ^ 2 + (u3 * u3 + u0 * u0) * (E * pz) + (u0 * u3) * pz ^ 2))
       by (intros; unfold p0, p3; ring).
     rewrite gd_sum_lin3, <- m20, <- m11, <- m02.
-    transitivity (dof * (((3 * D20 - D02 - msq * D00) * u3 * u0
-       + (3 * D02 - D20 + msq * D00) * u0 * u3 + 2 * D11 * (u3 * u3 + u0 * u0)) / 2)).
+    transitivity (dof * (((3 * D20 - D02 - msq' * D00) * u3 * u0
+       + (3 * D02 - D20 + msq' * D00) * u0 * u3 + 2 * D11 * (u3 * u3 + u0 * u0)) / 2)).
     + unfold T30_term. cbv zeta. cbn [t_Delta00 t_Delta02 t_Delta20 t_Delta11 t_dof t_msq e].
       fold (tm_u0 v). fold u0. rewrite <- U3. field.
     + rewrite boost_T30_algebra. ring.
@@ -309,12 +357,12 @@ Proof.
       (u3 * u3) * E ^ 2 + (2 * (u3 * u0)) * (E * pz) + (u0 * u0) * pz ^ 2))
       by (intros; unfold p3; ring).
     rewrite gd_sum_lin3, <- m20, <- m11, <- m02.
-    transitivity (dof * (((3 * D20 - D02 - msq * D00) * u3 * u3
-       + (3 * D02 - D20 + msq * D00) * u0 * u0 + 4 * D11 * u3 * u0) / 2
-       - (msq * D00 + D02 - D20) / 2)).
+    transitivity (dof * (((3 * D20 - D02 - msq' * D00) * u3 * u3
+       + (3 * D02 - D20 + msq' * D00) * u0 * u0 + 4 * D11 * u3 * u0) / 2
+       - (msq' * D00 + D02 - D20) / 2)).
     + unfold T33_term. cbv zeta. cbn [t_Delta00 t_Delta02 t_Delta20 t_Delta11 t_dof t_msq e].
       fold (tm_u0 v). fold u0. rewrite <- U3. field.
-    + rewrite (boost_T33_algebra D00 D02 D20 D11 msq u0 u3 Hu). ring.
+    + rewrite (boost_T33_algebra D00 D02 D20 D11 msq' u0 u3 Hu). ring.
 Qed.
 
 (** * 7. getDeltas multiplies nodal values; what it returns are nodal values in z *)
@@ -432,6 +480,49 @@ Proof.
   apply exact_sum_lem; assumption.
 Qed.
 
+(** the same for the four generated moments themselves *)
+Definition class_value (kappa : R) (A B : list R) : R :=
+  kappa * RInt (fun t => sin t ^ 2 * Ucomb A (cos t)) 0 PI
+        * RInt (fun t => sin t ^ 2 * Ucomb B (cos t)) 0 PI.
+Lemma exact_moments_lem s N msq f kappa A B :
+  nodes_energy_positive s N msq ->
+  (3 <= N)%nat -> (List.length A + 2 <= 2 * N)%nat -> (List.length B + 4 <= 2 * N)%nat ->
+  (integrand_in_class s N msq (fun E pz pp => 1) f kappa A B ->
+   gd_moment_Delta00 s N msq f = class_value kappa A B) /\
+  (integrand_in_class s N msq (fun E pz pp => pz ^ 2) f kappa A B ->
+   gd_moment_Delta02 s N msq f = class_value kappa A B) /\
+  (integrand_in_class s N msq (fun E pz pp => E ^ 2) f kappa A B ->
+   gd_moment_Delta20 s N msq f = class_value kappa A B) /\
+  (integrand_in_class s N msq (fun E pz pp => E * pz) f kappa A B ->
+   gd_moment_Delta11 s N msq f = class_value kappa A B).
+Proof.
+  intros HE HN HA HB.
+  destruct (moments_are_sums_lem s N msq f HE) as (m00 & m02 & m20 & m11).
+  rewrite m00, m02, m20, m11. unfold class_value.
+  repeat split; intros Hc; apply exact_angle_lem; assumption.
+Qed.
+
+(** sums of products: by linearity in the deviation, combinations of class members *)
+Lemma gd_sum_lin_f s N msq g a b f1 f2 :
+  gd_sum s N msq g (fun x y => a * f1 x y + b * f2 x y) =
+  a * gd_sum s N msq g f1 + b * gd_sum s N msq g f2.
+Proof.
+  unfold gd_sum. rewrite <- sumf_lin. apply sumf_ext; intros i Hi.
+  rewrite <- sumf_lin. apply sumf_ext; intros j Hj. cbv zeta. ring.
+Qed.
+Lemma exact_span_lem s N msq g a b f1 f2 k1 A1 B1 k2 A2 B2 :
+  (3 <= N)%nat ->
+  (List.length A1 + 2 <= 2 * N)%nat -> (List.length B1 + 4 <= 2 * N)%nat ->
+  (List.length A2 + 2 <= 2 * N)%nat -> (List.length B2 + 4 <= 2 * N)%nat ->
+  integrand_in_class s N msq g f1 k1 A1 B1 -> integrand_in_class s N msq g f2 k2 A2 B2 ->
+  gd_sum s N msq g (fun x y => a * f1 x y + b * f2 x y) =
+  a * class_value k1 A1 B1 + b * class_value k2 A2 B2.
+Proof.
+  intros. rewrite gd_sum_lin_f. unfold class_value.
+  rewrite <- (exact_angle_lem s N msq g f1 k1 A1 B1) by assumption.
+  rewrite <- (exact_angle_lem s N msq g f2 k2 A2 B2) by assumption. reflexivity.
+Qed.
+
 Section Exactness.
 (** the same in the variable x needs the substitution x = cos t, i.e. the classical
     orthogonality of the U_j for the weight sqrt(1-x^2); this is the ONLY analytic fact not
@@ -514,10 +605,10 @@ Theorem moments_linear : forall s N msq a b f g,
 Proof. exact moments_linear_lem. Qed.
 Print Assumptions moments_linear.
 
-Theorem tmunu_from_moments_is_boosted_direct_sum : forall s N msq dof v f,
+Theorem tmunu_from_moments_is_boosted_direct_sum : forall s N msq msq' dof v f,
   -1 < v < 1 -> nodes_energy_positive s N msq ->
   let e := mk_t_env (gd_moment_Delta00 s N msq f) (gd_moment_Delta02 s N msq f)
-                    (gd_moment_Delta20 s N msq f) (gd_moment_Delta11 s N msq f) dof msq in
+                    (gd_moment_Delta20 s N msq f) (gd_moment_Delta11 s N msq f) dof msq' in
   let u0 := tm_u0 v in let u3 := tm_u3 v in
   let p0 := fun E pz : R => u0 * E + u3 * pz in
   let p3 := fun E pz : R => u3 * E + u0 * pz in
@@ -573,6 +664,45 @@ Proof.
 Qed.
 Print Assumptions moments_exact_on_class.
 
+Theorem generated_moments_exact_on_class : forall s N msq f kappa A B,
+  nodes_energy_positive s N msq ->
+  (3 <= N)%nat -> (List.length A + 2 <= 2 * N)%nat -> (List.length B + 4 <= 2 * N)%nat ->
+  (integrand_in_class s N msq (fun E pz pp => 1) f kappa A B ->
+   gd_moment_Delta00 s N msq f = class_value kappa A B) /\
+  (integrand_in_class s N msq (fun E pz pp => pz ^ 2) f kappa A B ->
+   gd_moment_Delta02 s N msq f = class_value kappa A B) /\
+  (integrand_in_class s N msq (fun E pz pp => E ^ 2) f kappa A B ->
+   gd_moment_Delta20 s N msq f = class_value kappa A B) /\
+  (integrand_in_class s N msq (fun E pz pp => E * pz) f kappa A B ->
+   gd_moment_Delta11 s N msq f = class_value kappa A B).
+Proof. exact exact_moments_lem. Qed.
+Print Assumptions generated_moments_exact_on_class.
+
+Theorem moments_exact_on_span_of_class : forall s N msq g a b f1 f2 k1 A1 B1 k2 A2 B2,
+  (3 <= N)%nat ->
+  (List.length A1 + 2 <= 2 * N)%nat -> (List.length B1 + 4 <= 2 * N)%nat ->
+  (List.length A2 + 2 <= 2 * N)%nat -> (List.length B2 + 4 <= 2 * N)%nat ->
+  integrand_in_class s N msq g f1 k1 A1 B1 -> integrand_in_class s N msq g f2 k2 A2 B2 ->
+  gd_sum s N msq g (fun x y => a * f1 x y + b * f2 x y) =
+  a * class_value k1 A1 B1 + b * class_value k2 A2 B2.
+Proof. exact exact_span_lem. Qed.
+Print Assumptions moments_exact_on_span_of_class.
+
+Theorem massless_nodes_have_positive_energy : forall L T s0 ops k msq,
+  let s := fold_left gstep ops (grid_init L T s0) in
+  s_momentumFalloffT s <> 0 -> 0 <= msq -> nodes_energy_positive s (2 * k + 1) msq.
+Proof.
+  intros L T s0 ops k msq s HT Hm. apply massless_nodes_lem; [|exact HT|exact Hm].
+  apply history_current, init_current.
+Qed.
+Print Assumptions massless_nodes_have_positive_energy.
+
+Theorem grid3scales_momentum_maps_are_grids : forall T r, -1 < r < 1 ->
+  g3_pz (mk_g3_env T) r = pz_of T r /\ g3_pp (mk_g3_env T) r = pp_of T r /\
+  g3_dpz (mk_g3_env T) r = dpz_of T r /\ g3_dpp (mk_g3_env T) r = dpp_of T r.
+Proof. exact grid3scales_maps_lem. Qed.
+Print Assumptions grid3scales_momentum_maps_are_grids.
+
 Theorem moments_exact_on_class_dx : forall s N msq g f kappa A B,
   (forall c : list R, RInt (fun x => sqrt (1 - x ^ 2) * Ucomb c x) (-1) 1 = PI / 2 * nth 0 c 0) ->
   (3 <= N)%nat -> (List.length A + 2 <= 2 * N)%nat -> (List.length B + 4 <= 2 * N)%nat ->
@@ -591,4 +721,14 @@ Example hypotheses_satisfiable :
   s_momentumFalloffT s = 100.
 Proof.
   intros s. split; [apply positive_mass_suffices; lra|]. split; [lra|]. split; [right|]; reflexivity.
+Qed.
+(** ... and a MASSLESS species on a grid with N = 5 that went through a rescaling history *)
+Example massless_satisfiable :
+  let s := fold_left gstep [OpMomentum 40; OpPosition3; OpPosition 2]
+             (grid_init 1 100 (mk_gst 0 0 (fun _ => 0) (fun _ => 0) (fun _ => 0) (fun _ => 0)
+                                      (fun _ => 0) (fun _ => 0))) in
+  nodes_energy_positive s 5 0.
+Proof.
+  intros s. apply (massless_nodes_have_positive_energy 1 100 _ _ 2 0); [|lra].
+  unfold s. rewrite history_scale, init_scale. cbv [scale_after fold_left]. lra.
 Qed.
